@@ -4,8 +4,10 @@
 // variables plus views — against lib/proto and against a reference model (model_test.go: an object
 // graph with explicit sharing and wrapper groups with one frozen flag each).  Two generators feed it:
 //
-//	grid     exhaustive: field kind x position x value (TestPropGrid), short cases on message All / P2
-//	history  rapid state machine on the recursive message T (TestPropHistory)
+//	grid      exhaustive: field kind x position x value (TestPropGrid), short cases on message All / P2
+//	history   rapid state machine on the recursive message T (TestPropHistory)
+//	lossless  rapid: uniformly random 32/64-bit ints, strings, bytes, floats at every position of All, then
+//	          two chained binary/text round trips (TestPropLossless)
 //
 // Descriptors are built in schema_test.go with descriptorpb + protodesc.
 package c20
@@ -27,6 +29,7 @@ func TestMain(m *testing.M) {
 		"defaults/groups/required, proto2 extensions through set_field) x ~60 values (min-1, min, max, max+1 of every integer width, 0, bool, "+
 		"integral and non-integral floats, NaN, +-inf, strings incl. invalid UTF-8 and enum names, bytes, None, list, tuple, dict, messages of the "+
 		"right and of a foreign type, enum values of the right and of a foreign enum, descriptors, a function). "+
+		"lossless: uniformly random 32/64-bit integers, strings, bytes, floats written to singular/repeated/map-value/map-key positions and carried through two round trips. "+
 		"history: rapid-generated sequences of construct (kwargs/dict/copy)/assign/alias/view/element/freeze/mutate/marshal-unmarshal operations. "+
 		"After every step: the operation returned or failed (a recovered Go panic is a violation); every handle is read back completely through the "+
 		"Starlark API with a type+range check of every value, and again from the wrapped protoreflect message, and must equal the model; a failed "+
@@ -101,8 +104,8 @@ func caseKey(c Case) string {
 }
 
 var (
-	subGrid    = vk.Register("grid", checkCase("grid"))
-	subHistory = vk.Register("history", checkCase("history"))
+	subGrid     = vk.Register("grid", checkCase("grid"))
+	subHistory  = vk.Register("history", checkCase("history"))
 	subLossless = vk.Register("lossless", checkCase("lossless"))
 )
 
